@@ -701,7 +701,7 @@ func EnumerateFaults(a, b []byte, thorough bool, emit func(f fault) bool) {
 func storeTypes(cfg world.InstCfg) []string {
 	var out []string
 	for _, ti := range world.TypeList {
-		if !world.TopOK(&world.TypeInfo{T: ti.T, Top: true, Bad: ti.Bad}, cfg) {
+		if !world.ShapeOK(ti, cfg) {
 			continue
 		}
 		out = append(out, ti.Name)
@@ -713,7 +713,7 @@ var versionSiblings = map[string][]string{
 	"V0": {"V1", "V2"}, "V1": {"V0", "V2"}, "V2": {"V0", "V1", "Wide"},
 	"Wide": {"V2", "Maps"}, "Inner": {"Small", "KeyS"}, "Sym": {"SymTwin", "Inner"}, "SymTwin": {"Sym"},
 	"Maps": {"Wide", "JDoc"}, "JDoc": {"Maps", "V1", "JArr"}, "JArr": {"JDoc", "JNest"}, "JNest": {"JDoc", "Maps"}, "[]any": {"[]string", "map[string]any"}, "map[string]any": {"MapSI", "[]any"}, "Node": {"Tree", "RA"}, "Tree": {"Node"},
-	"MTarget": {"Wide"}, "RA": {"RB"}, "RB": {"RC"}, "RC": {"RA"}, "Small": {"Inner", "KeyS"},
+	"MTarget": {"Wide"}, "Nest": {"Wide", "Maps"}, "NestD": {"Nest", "Maps"}, "[][]int": {"[]int", "[]string"}, "map[string][]int": {"MapSI", "Tags"}, "IDs": {"[]int"}, "Tags": {"MapSI"}, "[]null.Int": {"[]int"}, "OnlyMap": {"Tags"}, "RA": {"RB"}, "RB": {"RC"}, "RC": {"RA"}, "Small": {"Inner", "KeyS"},
 	"MapKS": {"MapKV", "MapSI"}, "MapKV": {"MapKS"}, "MapSI": {"MapKS", "[]string"},
 	"[]string": {"[][]byte", "[]Inner"}, "[]int": {"[]float64", "MyBytes"}, "[]float64": {"[]int"},
 	"[]Inner": {"[]string", "[]*Node"}, "[]*Node": {"[]Inner"}, "RootA": {"RootB"}, "RootB": {"RootC"}, "RootC": {"RootA"},
@@ -726,7 +726,7 @@ func (s *StoreSim) readersFor(tn string, cfg world.InstCfg) []*storeReader {
 		if ti == nil || ti.Bad {
 			return
 		}
-		if cfg.ProtoArrays && !world.TopOK(&world.TypeInfo{T: ti.T, Top: true}, cfg) {
+		if cfg.ProtoArrays && !world.ShapeOK(ti, cfg) {
 			return
 		}
 		out = append(out, &storeReader{mode: "unmarshal", ti: ti, k: KFor(ti.T), stateful: hasIntern(ti.T, map[reflect.Type]bool{})})
@@ -883,7 +883,7 @@ func (s *StoreSim) ShortBlocks(idx int, thorough bool) (*Violation, *StoreCase) 
 // length" are statements about growth. Records with N, 4N, 16N ... elements
 // are decoded (valid and damaged) and the cost per input byte must not grow.
 
-var scaleTypes = []string{"[]Inner", "[]string", "[]int", "[][]byte", "[]*Node", "MapSI", "MapKS", "MapKV", "Wide", "JDoc", "V2", "[]float64", "Maps", "MTarget", "SymBox", "Node", "RootA"}
+var scaleTypes = []string{"Nest", "NestD", "[][]int", "map[string][]int", "[]Inner", "[]string", "[]int", "[][]byte", "[]*Node", "MapSI", "MapKS", "MapKV", "Wide", "JDoc", "V2", "[]float64", "Maps", "MTarget", "SymBox", "Node", "RootA"}
 
 type scalePoint struct {
 	steps   int
@@ -902,7 +902,7 @@ func (s *StoreSim) ScaleProbe(seed uint64, idx int, thorough bool) (*Violation, 
 	}
 	tn := scaleTypes[(idx/2)%len(scaleTypes)]
 	ti := world.Types[tn]
-	if !world.TopOK(&world.TypeInfo{T: ti.T, Top: true}, cfg) {
+	if !world.ShapeOK(ti, cfg) {
 		return nil, nil
 	}
 	sizes := []int{256, 1024, 4096}
